@@ -49,7 +49,7 @@ RULE = ('exhaustive small scope: every map of length <= N whose valid entries ar
         'indexed source field shared by a sequence of calls — every map of length <= 3 (thorough 4) over sources of '
         'length <= 3, ordered and unordered, x 3 markers x EVERY ordered pair of the six call kinds {stream, indexed '
         'stream, map_valid, safe_map_values, safe_map_indexed_values, stream with the map column as its own source} '
-        '(thorough: every third triple as well), memory-backed (chunk reads are views of the field) and every 48th '
+        '(thorough: every fifth triple as well), memory-backed (chunk reads are views of the field) and every 48th '
         'HDF5-backed; the map and both sources are read back after the history and compared with what was supplied; '
         'then random histories of 2-5 calls over longer maps. '
         'EXTREMES: every map of length <= 3 over source values at the extremes of int64/int32/uint8 and over float bit '
@@ -843,7 +843,7 @@ def _gen_histories(big, rng):
                         if 'self' in names and not _self_ok(m):
                             continue
                         rot += 1
-                        if len(names) == 3 and rot % 3:
+                        if len(names) == 3 and rot % 5:
                             continue
                         cs = 1 + rot % (n + 1)
                         c = {'op': 'hist', 'kind': (['int32'] * 3 + NUM_KINDS)[rot % 9], 'map': m, 'inv': inv,
@@ -853,7 +853,7 @@ def _gen_histories(big, rng):
                         if inv == 0 and rot % 2:
                             c['mdt'] = 'int64'
                         yield c
-    for k in range(4000 if big else 700):
+    for k in range(3000 if big else 700):
         Ls = rng.randint(1, 30)
         cs = rng.choice([1, 2, 3, 4, 5, 8])
         n = rng.randint(1, 30)
@@ -1083,8 +1083,8 @@ def _gen_scaled(big, rng):
     (harness/hot.py) is planted as chunk size, map length, run length and entry byte width (K-1, K, K+1, 2K, ...)"""
     from harness import hot
     mult = 2 if hot.changed() else 1
-    plan = [('stream', 9000 if big else 1500), ('istream', 4000 if big else 600), ('helper', 2000 if big else 400),
-            ('hist', 2000 if big else 400)]
+    plan = [('stream', 5000 if big else 1500), ('istream', 2000 if big else 600), ('helper', 1000 if big else 400),
+            ('hist', 1000 if big else 400)]
     for sel, cnt in plan:
         for _ in range(cnt * mult):
             cs = rng.choice(SCALED_CS) if rng.random() < 0.7 else rng.randint(16, 300)
